@@ -260,10 +260,10 @@ def oracle_laws(group, a, b, c, n, m):
     if group == "Ed25519":
         from spake2.ed25519_group import Ed25519Group as g
         rg = R.RefEdGroup()
-    elif group == "toy11":
-        from spake2.groups import IntegerGroup
-        g = IntegerGroup(p=23, q=11, g=2)
-        rg = R.RefIntGroup(23, 11, 2)
+    elif group in ("toy11", "toy1019", "toy257", "sp61"):
+        from checks import common as C
+        g = C.toy_group(group)
+        rg = R.RefIntGroup(*C.TOYS[group])
     else:
         from spake2 import groups
         g = getattr(groups, group)
@@ -275,7 +275,44 @@ def oracle_laws(group, a, b, c, n, m):
     def ref(k):
         return rg.enc(rg.mul(rg.base(), k % q))
     # the 17 laws themselves on the model's operands (and sign/multiple-of-q variants of its scalars)
-    ea, eb, ec = [Base.scalarmult(k % q) if k % q else Base.scalarmult(1) for k in (a, b, c)]
+    def reps(k):
+        """the element Base*k reached by different routes (different internal representations)"""
+        k = k % q or 1
+        e0 = Base.scalarmult(k)
+        out = [e0]
+        try:
+            out.append(g.bytes_to_element(e0.to_bytes()))
+        except Exception:
+            pass
+        out.append(Base.scalarmult(k - 1).add(Base) if k > 1 else Base.scalarmult(k + 1).add(Base.scalarmult(-1)))
+        out.append(Base.scalarmult(2 * k).scalarmult((q + 1) // 2))
+        return out
+    # value-equal elements in different representations behave identically
+    for k in sorted({a % q or 1, b % q or 1, 1, 2, 5}):
+        rs = reps(k)
+        for i, e1 in enumerate(rs):
+            for j, e2 in enumerate(rs):
+                for (what, f, kk) in (("P+P'", lambda: e1.add(e2), 2 * k), ("P+P'+P", lambda: e1.add(e2).add(e1), 3 * k),
+                                      ("(P+P')*3", lambda: e1.add(e2).scalarmult(3), 6 * k)):
+                    try:
+                        got = f().to_bytes()
+                    except Exception as ex:
+                        return (True, "%s raised %s on %s for P=Base*%d reached by routes %d and %d" % (what, type(ex).__name__, group, k, i, j))
+                    if got != ref(kk):
+                        return (True, "%s is wrong on %s for the same element P=Base*%d reached by two different routes (%d, %d)" % (what, group, k, i, j))
+                if hasattr(e1, "subtract"):
+                    try:
+                        if e1.subtract(e2).to_bytes() != ref(0) or e1.negate().to_bytes() != ref(-k) or e1.negate().add(e2).to_bytes() != ref(0):
+                            return (True, "negate/subtract wrong on %s for P=Base*%d reached by routes %d and %d" % (group, k, i, j))
+                    except Exception as ex:
+                        return (True, "negate/subtract raised %s on %s for P=Base*%d (routes %d, %d)" % (type(ex).__name__, group, k, i, j))
+                try:
+                    if not (e1 == e2) or (e1 != e2):
+                        return (True, "value-equal elements compare unequal on %s (P=Base*%d, routes %d, %d)" % (group, k, i, j))
+                except Exception as ex:
+                    return (True, "== raised %s" % type(ex).__name__)
+    ra, rb, rc = reps(a), reps(b), reps(c)
+    ea, eb, ec = ra[0], rb[1 % len(rb)], rc[2 % len(rc)]
     for (nn, mm) in [(n, m), (-n, m), (n, -m), (n * q, m), (-q, 2), (q, -1), (0, m), (n, 0), (-2 * q, -q)]:
         for nm, f in _laws(ea, eb, ec, Zero, Base, nn, mm, q):
             try:
